@@ -15,6 +15,7 @@ BUDGET_S = {'quick': 3600, 'thorough': 14400}
 
 CHUNK = 350
 EXHAUSTIVE = {'quick': 3, 'thorough': 4}
+RESTRICTED = {'quick': [4, 5], 'thorough': [4, 5, 6]}     # exhaustive over the smaller statement set R_ATOMS / R_COMPOUND
 RANDOM = {'quick': [(4, 1500), (5, 1500), (6, 1000)], 'thorough': [(5, 20000), (6, 20000), (7, 10000), (8, 5000)]}
 
 
@@ -25,6 +26,10 @@ def tasks(tier, seed):
         n = G.count(size)
         for start in range(0, n, CHUNK):
             ts.append(dict(kind='exh', name='all/size%d/%d' % (size, start), size=size, start=start, stop=min(n, start + CHUNK), cost=size))
+    for size in RESTRICTED[tier]:
+        n = G.count(size, restricted=True)
+        for start in range(0, n, 4 * CHUNK):
+            ts.append(dict(kind='exh', name='restricted/size%d/%d' % (size, start), size=size, start=start, stop=min(n, start + 4 * CHUNK), restricted=True, cost=size))
     for size, n in RANDOM[tier]:
         for k in range(0, n, CHUNK):
             ts.append(dict(kind='rnd', name='random/size%d/%d' % (size, k), size=size, count=min(CHUNK, n - k), seed=seed * 1000003 + size * 7919 + k, cost=size + 1))
@@ -147,7 +152,7 @@ def run_task(task):
     from . import c15_gen as G, tv
     tier = task.get('tier', 'quick')
     if task['kind'] == 'exh':
-        bodies = G.nth_programs(task['size'], task['start'], task['stop'])
+        bodies = G.nth_programs(task['size'], task['start'], task['stop'], restricted=bool(task.get('restricted')))
     else:
         rng = random.Random(task['seed'])
         bodies = [G.random_body(rng, task['size']) for _ in range(task['count'])]
@@ -192,7 +197,7 @@ def describe(tier):
                    'analysis.reachability.Reachability.analyze', 'analysis.define_use / reaching_defs (run by the bytecode compiler)', 'interpret.byte.BytecodeCompiler / BytecodeInterpreter.eval on symbolic arguments'],
         files=[R + 'analysis/syntax_check.py', R + 'analysis/reachability.py', R + 'analysis/live_vars.py', R + 'decorator.py', R + 'analysis/define_use.py', R + 'analysis/reaching_defs.py', R + 'interpret/byte.py',
                R + 'frontend/parser.py'],
-        bounds=dict(grammar='harness/c15_gen.py: 15 atoms, 8 compound forms, nesting depth <= 2', exhaustive_up_to_statements=EXHAUSTIVE[tier], exhaustive_programs=sum(G.count(s) for s in range(1, EXHAUSTIVE[tier] + 1)),
+        bounds=dict(grammar='harness/c15_gen.py: 17 atoms, 8 compound forms, nesting depth <= 2; restricted family: 4 atoms, 5 compound forms', restricted_exhaustive_sizes=RESTRICTED[tier], restricted_programs=sum(G.count(s, restricted=True) for s in RESTRICTED[tier]), exhaustive_up_to_statements=EXHAUSTIVE[tier], exhaustive_programs=sum(G.count(s) for s in range(1, EXHAUSTIVE[tier] + 1)),
                     random_programs={str(s): n for s, n in RANDOM[tier]}, range_trip_counts=[0, 1, 2], list_lengths=[0, 1, 2], while_trip_counts='0..2 chosen by the solver through the symbolic counter',
                     condition_operands='symbolic half-integers, 4-bit significand, both signs; one per if'),
         outside=['programs outside the grammar or larger than the bound', 'rejected programs (rejecting more is not a violation)', 'failures other than unbound names / fall-through (counted in other_exceptions)'],
